@@ -17,9 +17,11 @@ def genDetails (d : WinDetails) : Gen.WinDetails :=
   { Over := d.over, Reason := if d.reason == .road then 0 else 1, Winner := BitVec.ofNat 8 d.winner.code,
     WhiteFlats := d.whiteFlats, BlackFlats := d.blackFlats }
 
+/-- helper: the regenerated `ToMove` gives the byte of the model's side to move (`C02.toMove_is_source`) -/
 theorem toMove_byte (p : Pos) : Gen.positionToMove p.move = BitVec.ofNat 8 p.toMove.code :=
   (C02.toMove_is_source p).symm
 
+/-- helper: colour bytes are equal iff the colours are -/
 theorem colorByte_eq (a b : Color) : (BitVec.ofNat 8 a.code == BitVec.ofNat 8 b.code) = (a == b) := by
   cases a <;> cases b <;> decide
 
@@ -70,6 +72,7 @@ theorem dimSkip_loop0 (bits : W) (n : Nat) (b b' : W) (h : dimSkip bits 1 n b = 
       subst h
       exact ⟨rfl, by simpa [Gen.dimensions_loop0_more] using hc⟩
 
+/-- helper: same for the row loop (`b >>= c.Size`) -/
 theorem dimSkip_loop2 (c : Consts) (bits : W) (n : Nat) (b b' : W) (h : dimSkip bits c.Size n b = some b') :
     Gen.dimensions_loop2 bits c n b = b' ∧ Gen.dimensions_loop2_more bits c b' = false := by
   induction n generalizing b with
@@ -84,6 +87,7 @@ theorem dimSkip_loop2 (c : Consts) (bits : W) (n : Nat) (b b' : W) (h : dimSkip 
       subst h
       exact ⟨rfl, by simpa [Gen.dimensions_loop2_more] using hc⟩
 
+/-- helper: the model's width count is the regenerated counting loop -/
 theorem dimCount_loop1 (bits : W) (n : Nat) (b : W) (k : Nat) (w : Int) (hw : w = k) :
     (Gen.dimensions_loop1 bits n (b, w)).2 = (dimCount bits 1 n b k : Int) := by
   induction n generalizing b k w with
@@ -94,6 +98,7 @@ theorem dimCount_loop1 (bits : W) (n : Nat) (b : W) (k : Nat) (w : Int) (hw : w 
     · simp only [hc, if_true]; exact ih _ (k + 1) _ (by omega)
     · simp only [hc]; simp [hw]
 
+/-- helper: the model's height count is the regenerated counting loop -/
 theorem dimCount_loop3 (c : Consts) (bits : W) (n : Nat) (b : W) (k : Nat) (w : Int) (hw : w = k) :
     (Gen.dimensions_loop3 bits c n (b, w)).2 = (dimCount bits c.Size n b k : Int) := by
   induction n generalizing b k w with
@@ -134,6 +139,7 @@ theorem dimensions_is_source (c : Consts) (bits : W) (r : Nat × Nat) (h : dimen
         simp [e1, e3]
 
 
+/-- helper: a 64-bit word shifted right by 64 or more is 0 -/
 theorem shr_ge64 (b : W) (n : Nat) (h : 64 ≤ n) : b >>> n = 0#64 := by
   apply BitVec.eq_of_toNat_eq
   simp only [BitVec.toNat_ushiftRight, BitVec.toNat_ofNat, Nat.shiftRight_eq_div_pow]
@@ -141,6 +147,7 @@ theorem shr_ge64 (b : W) (n : Nat) (h : 64 ≤ n) : b >>> n = 0#64 := by
   have : 2 ^ 64 ≤ 2 ^ n := Nat.pow_le_pow_right (by omega) h
   rw [Nat.div_eq_of_lt (by omega)]
 
+/-- helper: after `n` rounds the height loop has stopped or holds `b >>> (Size*n)` -/
 theorem loop3_state (c : Consts) (bits : W) (n : Nat) (b : W) (h : Int) :
     Gen.dimensions_loop3_more bits c (Gen.dimensions_loop3 bits c n (b, h)) = false ∨
     (Gen.dimensions_loop3 bits c n (b, h)).1 = b >>> (c.Size * n) := by
@@ -155,6 +162,7 @@ theorem loop3_state (c : Consts) (bits : W) (n : Nat) (b : W) (h : Int) :
       · right; rw [h1, ← BitVec.shiftRight_add]; congr 1; rw [Nat.mul_succ]; omega
     · left; simp only [hc]; simpa [Gen.dimensions_loop3_more] using hc
 
+/-- helper: after `n` rounds the width loop has stopped or holds `b >>> n` -/
 theorem loop1_state (bits : W) (n : Nat) (b : W) (w : Int) :
     Gen.dimensions_loop1_more bits (Gen.dimensions_loop1 bits n (b, w)) = false ∨
     (Gen.dimensions_loop1 bits n (b, w)).1 = b >>> n := by
@@ -169,6 +177,7 @@ theorem loop1_state (bits : W) (n : Nat) (b : W) (w : Int) :
       · right; rw [h1, ← BitVec.shiftRight_add]; congr 1; omega
     · left; simp only [hc]; simpa [Gen.dimensions_loop1_more] using hc
 
+/-- the whitelisted fuel 70 of the width loop of `Dimensions` suffices for every mask -/
 theorem dimensions_width_fuel (bits b : W) (w : Int) :
     Gen.dimensions_loop1_more bits (Gen.dimensions_loop1 bits 70 (b, w)) = false := by
   rcases loop1_state bits 70 b w with h0 | h1
